@@ -248,7 +248,8 @@ def encodable(s: str) -> bool:
 
 def escape_set_rule(model: Model, run: Run, ex, mr: MayRaise, rule: str):
     """the exception classes that can leave LDAPSession.receive must be {ProtocolError}; returns the escape set"""
-    base_fi = model.find_method(BASE, "receive")
+    from ..readerrules import receive_anchor
+    base_fi = receive_anchor(model)
     # ---- (1) escape set of the base receive (it contains the handlers) ---------
     base_esc = mr.escapes(base_fi.qualname, None)
     if mr.unknown_calls:
